@@ -569,7 +569,9 @@ struct LcSim : Harness {
     for (auto d : model.entered) { std::string q = prog::ps_of(*d); int ni = 0, nf = 0, words = 0; for (char c : q) { if (c == 'l') { if (words & 1) { C->count("ld_stack_arg_after_odd_words_entered"); break; } words += 2; } else if (prog::int_kind(c)) { if (++ni > 6) words++; } else if (++nf > 8) words++; } }
     if (interp) {
       MIR_val_t res, vals[80]; memset(vals, 0, sizeof vals); memset(&res, 0, sizeof res);
-      { int ai = 0, di = 0, k = 0; for (char c : ps) { if (prog::int_kind(c)) vals[k++].i = args[(size_t) ai++]; else if (c == 'd') vals[k++].d = 2.0 + di++; else if (c == 'f') vals[k++].f = 2.0f + (float) di++; else vals[k++].ld = 2.0L + di++; } }
+      uint64_t blkmem[8][3]; int nb = 0;
+      { int ai = 0, di = 0, k = 0; for (char c : ps) { if (const prog::BlkInfo *bi = prog::blk_info(c)) { int64_t v = args[(size_t) ai++]; for (int j = 0; bi->fields[j]; j++) { uint64_t raw = prog::blk_field(bi->fields[j], v, j); if (bi->fields[j] == 'q') blkmem[nb][j] = raw; else { double x = (double) raw; memcpy(&blkmem[nb][j], &x, 8); } } vals[k++].a = blkmem[nb++]; C->count("block_argument_entered"); }
+        else if (prog::int_kind(c)) vals[k++].i = args[(size_t) ai++]; else if (c == 'd') vals[k++].d = 2.0 + di++; else if (c == 'f') vals[k++].f = 2.0f + (float) di++; else vals[k++].ld = 2.0L + di++; } }
       if (!(op.size() > 3 && op[3].num() != 0)) MIR_interp_arr(ctx, f->item, &res, (size_t) (na + nd), vals);
       else { C->count("interp_variadic_entry"); MIR_interp(ctx, f->item, &res, (size_t) (na + nd), V10(vals, 0), V10(vals, 10), V10(vals, 20), V10(vals, 30), V10(vals, 40), V10(vals, 50), V10(vals, 60), V10(vals, 70)); }  /* both entry points (they size the argument buffer separately) */
       got = rt == 'd' ? (int64_t) res.d : rt == 'f' ? (int64_t) res.f : rt == 'l' ? (int64_t) res.ld : res.i; f->interp_runs++; C->count("interp_runs");
@@ -685,7 +687,7 @@ struct LcSim : Harness {
     bool big = r.chance(1, 6);   // large bodies: code that spans pages, many switch tables (absolute-address relocations)
     if (big) { go.body = (int) r.range(20, 70); go.nfuncs = (int) r.range(2, 5); }
     // swarm: feature subset per run
-    go.lref = r.chance(1, 2); go.jt = r.chance(1, 2); go.sw = r.chance(2, 3); go.icall = r.chance(1, 2); go.ext = r.chance(2, 3); go.mem = r.chance(1, 2); go.loops = r.chance(2, 3); go.doubles = r.chance(1, 3); go.recursion = r.chance(1, 2); go.extn = r.chance(1, 4); go.wide = r.chance(1, 8); go.typed = r.chance(1, 3); go.extm = r.chance(1, 4);
+    go.lref = r.chance(1, 2); go.jt = r.chance(1, 2); go.sw = r.chance(2, 3); go.icall = r.chance(1, 2); go.ext = r.chance(2, 3); go.mem = r.chance(1, 2); go.loops = r.chance(2, 3); go.doubles = r.chance(1, 3); go.recursion = r.chance(1, 2); go.extn = r.chance(1, 4); go.wide = r.chance(1, 8); go.typed = r.chance(1, 3); go.extm = r.chance(1, 4); go.blocks = r.chance(1, 2);
     if (big) { go.sw = true; go.sw_weight = 30; go.recursion = false; }
     go.blocked = r.coin();
     prog::Generator g(r, go); Json prog = g.program(); prog::protect_fuel(prog);
